@@ -94,6 +94,28 @@ CHECKS['C05'] = dict(
     assumptions=['requests are otherwise valid (authorised client, unlocked accounts, 32-byte data)'],
 )
 
+CHECKS['C06'] = dict(
+    pkg='c06', level='fault_enumeration',
+    technique='fault injection: complete single-fault table (request kind x dependency call site x batch position) plus rapid-generated multi-fault plans, oracle signature<=>SUCCEEDED and no signature on a faulted path',
+    level_text=('Every single fault of the table (account lookup, permission check, IsUnlocked, unlocker error/false, locked account with unknown '
+                'passphrase, rules FAILED/UNKNOWN/DENIED per position, short and all-UNKNOWN rule lists, store fetch/store/batch errors via the '
+                'verif hook, five kinds of undecodable stored record, store closed before / at fetch / at store, unhashable domain, Sign error, '
+                'non-signer account) is injected once per request kind and position class (first/middle/last), through the service and the gRPC '
+                'handler, against real services; rapid adds plans of 0-4 simultaneous faults on batches up to 20. Oracle: signature iff SUCCEEDED '
+                'per position; a fault that actually fired on position i leaves i unsigned; surviving signatures verify.'),
+    level_note=('Faults are injected at exported interfaces and at the verif hook in Store.Fetch/Store/BatchStore; a request that never answers '
+                '(badger WriteBatch.Flush blocks on a closed DB) counts as "no signature". Over-long result lists are out of scope (no rules.Service produces them).'),
+    parts=[part('TestC06Enum', 1, 1, tshards=1, no_rapid_count=True), part('TestC06Random', 600, 5000, qshards=2)],
+    rule=('enumerated table: 5 request kinds x 18 fault sites (with modes) x position classes x {service,gRPC}, run completely in both tiers, plus '
+          'rapid-generated plans of 0-4 faults; a case is non-trivial iff a planned fault actually fired on a position that the fault-free twin run of the '
+          'same request signed; distinct = sha256 of the case JSON'),
+    essential=['fault-fired-on-otherwise-signed-position', 'multi-fault-plan', 'enumerated-single-fault-cases'] + ['fired:' + s for s in [
+        'fetch', 'check', 'isunlocked-err', 'unlock-err', 'unlock-false', 'locked-unknown-passphrase', 'rules', 'rules-list', 'store-fetch-err',
+        'store-store-err', 'store-batch-err', 'record-undecodable', 'store-closed-before', 'store-closed-at-fetch', 'store-closed-at-store',
+        'hash-fail', 'sign-err', 'non-signer']],
+    assumptions=['fault model: errors/indeterminate answers at dependency boundaries, not memory corruption', 'herumi BLS verification is trusted'],
+)
+
 ENGINES = [
     dict(name='rapid-harness', path='/verif/harness', kind_free_text='Go test module (pgregory.net/rapid v1.3.0) compiled against /repo with -tags verif; driver /verif/check shards by seed, merges coverage, writes evidence',
          serves_properties=sorted(CHECKS)),
